@@ -318,8 +318,15 @@ def cache(rc):
     if key is None:
         rc.fail(call, call.node, "LRUCache.__call__ must take the key as *args", construct="key")
         return
-    txt = norm(call.node, 100000)
-    lookups = [n for n in walk_no_nested(call.node) if isinstance(n, ast.Call) and call_name(n) == "get" and n.args and dotted(n.args[0]) == key]
+    maps = {"self.mapping"}
+    for n in walk_no_nested(call.node):
+        if isinstance(n, ast.Assign) and isinstance(n.targets[0], ast.Tuple) and isinstance(n.value, ast.Tuple) and len(n.targets[0].elts) == len(n.value.elts):
+            for t_, v_ in zip(n.targets[0].elts, n.value.elts):
+                if norm(v_) == "self.mapping" and isinstance(t_, ast.Name):
+                    maps.add(t_.id)
+        elif isinstance(n, ast.Assign) and norm(n.value) == "self.mapping" and isinstance(n.targets[0], ast.Name):
+            maps.add(n.targets[0].id)
+    lookups = [n for n in walk_no_nested(call.node) if isinstance(n, ast.Call) and call_name(n) == "get" and n.args and dotted(n.args[0]) == key and dotted(n.func.value) in maps]
     computes = [n for n in walk_no_nested(call.node) if isinstance(n, ast.Call) and norm(n.func) == "self.original_function"]
     rc.ob(f"LRUCache.__call__: lookups {[norm(x) for x in lookups]}, computes {[norm(x) for x in computes]}")
     if not lookups:
@@ -327,28 +334,39 @@ def cache(rc):
     for c in computes:
         if not (len(c.args) == 1 and isinstance(c.args[0], ast.Starred) and dotted(c.args[0].value) == key):
             rc.fail(call, c, "a miss must compute with exactly the looked-up key")
-    stores = [n for n in walk_no_nested(call.node) if isinstance(n, ast.Assign) and any(isinstance(t, ast.Subscript) and dotted(t.value) in ("mapping", "self.mapping") and dotted(t.slice) == key for t in n.targets)]
-    if not stores:
+    val = None
+    for c in computes:
+        par = getattr(c, "_parent", None)
+        if isinstance(par, ast.Assign) and isinstance(par.targets[0], ast.Name):
+            val = par.targets[0].id
+    link = None
+    for l in lookups:
+        par = getattr(l, "_parent", None)
+        if isinstance(par, ast.Assign) and isinstance(par.targets[0], ast.Name):
+            link = par.targets[0].id
+    stores = [n for n in walk_no_nested(call.node) if isinstance(n, ast.Assign) and any(isinstance(t, ast.Subscript) and dotted(t.value) in maps and dotted(t.slice) == key for t in n.targets)]
+    if not stores or val is None or link is None:
         rc.fail(call, call.node, "the computed value must be stored under the same key", construct="store")
     else:
         # the stored link carries (key, value): value position
         for st in stores:
-            link = st.value if not isinstance(st.value, ast.Name) else None
-            lk = [n for n in walk_no_nested(call.node) if isinstance(n, ast.Assign) and dotted(n.targets[0]) == "link" and isinstance(n.value, ast.List)]
-            for l in lk:
-                els = [dotted(x) for x in l.value.elts]
-                if len(els) == 4 and (els[2] != key or els[3] != "value"):
+            lname = dotted(st.value)
+            lk = [n for n in walk_no_nested(call.node) if isinstance(n, ast.Assign) and dotted(n.targets[0]) == lname and isinstance(n.value, ast.List) and n.lineno < st.lineno]
+            if not lk and not isinstance(st.value, ast.List):
+                rc.fail(call, st, "the cache link must hold [prev, next, key, value]", construct="store link")
+            for l in lk[-1:] if lk else [st]:
+                els = [dotted(x) for x in l.value.elts] if isinstance(l.value, ast.List) else []
+                if len(els) != 4 or els[2] != key or els[3] != val:
                     rc.fail(call, l, "the cache link must hold [prev, next, key, value]")
     # a hit returns the stored value of that link
-    hit = [n for n in walk_no_nested(call.node) if isinstance(n, ast.Assign) and isinstance(n.targets[0], ast.Tuple) and dotted(n.value) == "link"]
+    hit = [n for n in walk_no_nested(call.node) if isinstance(n, ast.Assign) and isinstance(n.targets[0], ast.Tuple) and link is not None and dotted(n.value) == link]
     for h in hit:
         names = [dotted(x) for x in h.targets[0].elts]
         rc.ob(f"hit unpack {names}")
-        if len(names) != 4 or names[3] != "value":
+        if len(names) != 4 or names[3] != val:
             rc.fail(call, h, "a hit must return the value stored in the link (4th field)")
-    if not any(dotted(r.value) == "value" for r in returns_of(call)):
+    if val is None or not any(dotted(r.value) == val for r in returns_of(call)):
         rc.fail(call, call.node, "__call__ must return the value", construct="return")
-
 
 def _res(e, fi):
     if isinstance(e, ast.Name):
